@@ -223,6 +223,10 @@ class Body:
     def is_cleanup(self, b):
         return self.blocks[b]["c"] == 1
 
+    def origin(self, b):
+        """the function block b was written in: this function, or the helper it was spliced in from (rules/inline.py)"""
+        return self.blocks[b].get("from", self.id)
+
     def succ(self, b, unwind=False):
         t = self.blocks[b]["t"]
         k = t["k"]
@@ -317,6 +321,35 @@ class Body:
                     # the temp must be defined in the same block as the switch (no reordering issues)
                     if ds[0][0] == b:
                         ctl[b] = rv["op"]["pl"]["l"]
+        # the variant of an Option / Result local that is assigned once and never borrowed whole: two `match`es on it agree
+        # (`if let Some(x) = opt { start(x) } ... if let Some(x) = opt { join(x) }`).  Pseudo-flag id: -(local + 1).
+        dcand = set()
+        for l, ld in enumerate(self.locals):
+            if l == 0 or not (ld["ty"].startswith("core::option::Option<") or ld["ty"].startswith("core::result::Result<")):
+                continue
+            ds = self.defs().get(l, [])
+            if len(ds) != 1 or self.defs().get(("s", l)):
+                continue
+            dcand.add(l)
+        for b in range(self.n):
+            for st in self.blocks[b]["s"]:
+                if st["k"] == "assign" and st["rv"]["k"] in ("ref", "rawptr") and st["rv"]["pl"]["l"] in dcand and not st["rv"]["pl"].get("p") and st["rv"].get("mut", True):
+                    dcand.discard(st["rv"]["pl"]["l"])
+            t = self.blocks[b]["t"]
+            if t["k"] == "call":
+                for a in t["args"]:
+                    if a["k"] == "move" and not a["pl"].get("p") and a["pl"]["l"] in dcand:
+                        dcand.discard(a["pl"]["l"])  # moved away: later tests are of something else
+        for b in range(self.n):
+            t = self.blocks[b]["t"]
+            if b in ctl or t["k"] != "switch" or t["d"]["k"] not in ("copy", "move") or t["d"]["pl"].get("p"):
+                continue
+            ds = self.defs().get(t["d"]["pl"]["l"], [])
+            if len(ds) == 1 and ds[0][0] == b and ds[0][2] == "assign" and ds[0][3]["rv"]["k"] == "discr":
+                pl = ds[0][3]["rv"]["pl"]
+                if not pl.get("p") and pl["l"] in dcand:
+                    ctl[b] = -(pl["l"] + 1)
+                    single.add(-(pl["l"] + 1))
         flags = set(ctl.values())
         # a computed-once flag is only interesting when it is tested at least twice
         for f in list(flags):
@@ -348,7 +381,7 @@ class Body:
                     edges.append((rest.pop(), t["else"]))
                 for (v, tb) in edges:
                     if tb in doms and self.preds()[tb] == [cb] and sum(1 for (_v, x) in edges if x == tb) == 1:
-                        defblocks = {d[0] for d in self.defs().get(f, [])}
+                        defblocks = {d[0] for d in self.defs().get(f if f >= 0 else -f - 1, [])}
                         if not (defblocks & self.reachable([tb])):
                             vals[idx[f]] = v
             return tuple(vals)
@@ -366,6 +399,8 @@ class Body:
             out.add(b)
             v = list(vals)
             for s_ in self.blocks[b]["s"]:
+                if s_["k"] == "assign" and not s_["pl"].get("p") and -(s_["pl"]["l"] + 1) in idx:
+                    v[idx[-(s_["pl"]["l"] + 1)]] = None
                 if s_["k"] == "assign" and not s_["pl"].get("p") and s_["pl"]["l"] in idx:
                     rv = s_["rv"]
                     if rv["k"] == "use" and rv["op"]["k"] == "const":
@@ -375,6 +410,8 @@ class Body:
             t = self.blocks[b]["t"]
             if t["k"] == "call" and not t["dest"].get("p") and t["dest"]["l"] in idx:
                 v[idx[t["dest"]["l"]]] = None  # (re)computed by this call
+            if t["k"] == "call" and not t["dest"].get("p") and -(t["dest"]["l"] + 1) in idx:
+                v[idx[-(t["dest"]["l"] + 1)]] = None
             vt = tuple(v)
             succs = self.succ(b)
             if b in ctl and v[idx[ctl[b]]] is not None:
@@ -951,6 +988,10 @@ class Facts:
                 continue
             if b.n > inline.MAX_BLOCKS or b.local_ty(0).startswith("core::result::Result<") or b.impl_trait:
                 continue
+            if b.impl_self and re.sub(r"<.*$", "", b.impl_self) in anchors:
+                # a new method of a type the rules know as an OWNER (who-may-mutate rules: InMemory, OverlayStatus, FreeList ..)
+                # stays a method of that type
+                continue
             if any(o.startswith(i + "::{closure") for o in self.bodies):
                 continue
             new.add(i)
@@ -970,7 +1011,12 @@ class Facts:
                 if c in new:
                     still.add(c)
         text_refs = None
+        was_inlined = {x for v in report.values() for x in v}
         for h in sorted(new - still):
+            # only a helper that WAS spliced somewhere may disappear; a new function nobody calls (a new API entry point, a
+            # function only reachable from outside the crate) stays and is judged as a function of its own
+            if h not in was_inlined or str(self.bodies[h].vis) == "pub":
+                continue
             if text_refs is None:
                 text_refs = "\n".join(json.dumps(b.j.get("blocks")) for i, b in self.bodies.items() if i not in new)
             # function items used as values (`map(Self::helper)`) keep the helper alive
